@@ -35,7 +35,10 @@ pub struct Cfg {
     /// mesh parameters (outbound_min, n_low, n, n_high): 1 = (0,1,1,1), 2 = (0,1,1,2), 3 = (1,1,2,2)
     /// (4 = (0,3,3,4) is used by C27 only)
     pub mesh: u8,
-    /// 0: empty start; 1: locally subscribed to T1,T2 and all three peers connected
+    /// 0: empty start; 1: locally subscribed to T1,T2 and all three peers connected;
+    /// 2: as 1, then P2 (inbound) subscribed to both topics (and grafted), then P1 (outbound)
+    ///    subscribed to both topics — with mesh parameters 3 this is the state in which the mesh
+    ///    has mesh_n_low members but fewer than mesh_outbound_min outbound ones
     pub start: u8,
     /// entropy seed of every execution of this configuration
     pub seed: u64,
@@ -106,8 +109,16 @@ impl Act {
 }
 
 pub fn make_config(mesh: u8, flood_publish: bool) -> gs::Config {
+    make_config_v(mesh, flood_publish, false)
+}
+
+/// as `make_config`; `validate` = the application validates messages before they are forwarded
+pub fn make_config_v(mesh: u8, flood_publish: bool, validate: bool) -> gs::Config {
     let (omin, low, n, high) = mesh_params(mesh);
     let mut b = gs::ConfigBuilder::default();
+    if validate {
+        b.validate_messages();
+    }
     b.heartbeat_interval(HEARTBEAT)
         .heartbeat_initial_delay(TEN_YEARS)
         .mesh_outbound_min(omin)
@@ -187,8 +198,13 @@ impl MeshSys {
         }
         let high = mesh_params(cfg.mesh).3;
         let mut s = MeshSys { prop, cfg: cfg.clone(), roles: rl, high, node: GsNode::new(beh), connected: [false; 3], subs: [[false; 2]; 3], local: [false; 2], app: [0; 3], deadline: BTreeMap::new(), marks: vec![] };
-        if cfg.start == 1 {
-            for a in [Act::LocalSub(0), Act::LocalSub(1), Act::Connect(0), Act::Connect(1), Act::Connect(2)] {
+        if cfg.start >= 1 {
+            let mut pre = vec![Act::LocalSub(0), Act::LocalSub(1), Act::Connect(0), Act::Connect(1), Act::Connect(2)];
+            if cfg.start == 2 {
+                pre.push(Act::Sub(1, 3));
+                pre.push(Act::Sub(0, 3));
+            }
+            for a in pre {
                 if let Err(m) = s.step(&a) {
                     panic!("preamble violates the oracle: {m}");
                 }
@@ -346,6 +362,32 @@ impl MeshSys {
         }
         for (_, _) in &added {
             self.marks.push(format!("add.{via}"));
+        }
+        if matches!(a, Act::Heartbeat) {
+            let (omin, low, _, _) = mesh_params(self.cfg.mesh);
+            for t in 0..2u8 {
+                if !self.local[t as usize] {
+                    continue;
+                }
+                let b = &before[t as usize];
+                let outbound_members = b.iter().filter(|p| **p < 3 && self.roles[**p as usize].outbound).count();
+                if b.len() >= low {
+                    if added.iter().any(|x| x.1 == t) {
+                        // mesh was not low: the outbound-quota (or opportunistic) selection added
+                        self.marks.push("add.Heartbeat.mesh-not-low".into());
+                    }
+                    if outbound_members < omin {
+                        for p in 0..3u8 {
+                            let r = self.roles[p as usize];
+                            if r.outbound && !r.explicit && r.kind.is_gossipsub() && self.connected[p as usize] && self.subs[p as usize][t as usize] && !b.contains(&p) && deadline_before.get(&(p, t)).is_some_and(|d| now < *d) {
+                                // the situation of interest: quota unmet and the outbound
+                                // candidate is backed off (must not be grafted)
+                                self.marks.push("heartbeat.outbound-quota-unmet-candidate-backed-off".into());
+                            }
+                        }
+                    }
+                }
+            }
         }
         for (_, _) in &removed {
             self.marks.push(format!("remove.{via}"));
